@@ -312,6 +312,11 @@ def sub(rule, pat, rep, text, flags=0):
     return new
 
 
+STD_METHOD_NAMES = set('''map map_err len iter iter_mut unwrap unwrap_or into from clone get get_mut push extend contains is_empty as_ref
+as_mut to_owned to_vec to_string ok ok_or ok_or_else and_then or_else take skip filter collect any all min max new default fmt eq ne cmp
+partial_cmp hash next read write first last split_at chunks zip enumerate rev fold sum count find position copied cloned flatten
+is_some is_none is_ok is_err expect try_into try_from borrow as_bytes as_slice as_str bytes chars insert remove pop clear
+truncate resize reserve with_capacity capacity swap sort dedup join concat repeat then then_some transpose'''.split())
 NUM_ENUMS = ['StopCcnCode', 'CdnCode', 'ErrorType', 'ProxyAuthenType']
 
 
@@ -325,11 +330,20 @@ def apply_rules(text, relpath):
     text = sub('R5', r'^#!\[cfg_attr[^\n]*\n', '', text, re.M)
     text = sub('R5', r'^[ \t]*#\[enum_dispatch(\([^)]*\))?\][ \t]*\n', '', text, re.M)
     text = sub('R5', r'^[ \t]*use enum_dispatch::enum_dispatch;[ \t]*\n', '', text, re.M)
-    text = sub('R5', r'^[ \t]*use num_enum::\{[^}]*\};[ \t]*\n', '', text, re.M)
+    text = sub('R5', r'^[ \t]*use num_enum::(\{[^}]*\}|\w+);[ \t]*\n', '', text, re.M)
     text = sub('R5', r'^[ \t]*use thiserror::Error;[ \t]*\n', '', text, re.M)
     text = sub('R5', r'^[ \t]*use phf::phf_map;[ \t]*\n', '', text, re.M)
     text = sub('R5', r'^[ \t]*#\[error\(.*\)\][ \t]*\n', '', text, re.M)
     text = sub('R5', r'IntoPrimitive, TryFromPrimitive, ', '', text)
+    # the same derives in any other position / combination (an enum that newly derives them: generic D3 stand-in)
+    def _strip_prim(m):
+        items = [x.strip() for x in m.group(1).split(',') if x.strip()]
+        kept = [x for x in items if x.split('::')[-1] not in ('IntoPrimitive', 'TryFromPrimitive')]
+        if len(kept) == len(items):
+            return m.group(0)
+        count('R5')
+        return '#[derive(%s)]' % ', '.join(kept) if kept else ''
+    text = re.sub(r'#\[derive\(([^)]*)\)\]', _strip_prim, text)
     text = sub('R5', r'#\[derive\(Error, ', '#[derive(', text)
     # R7: visibility widening (`pub(crate)` -> `pub`): Verus requires contract expressions of a `pub fn` to be
     # well-formed wherever the fn is visible; in a single-crate image widening changes no behaviour
@@ -518,6 +532,83 @@ impl crate::vf_prelude::VfTryInto<%(en)s> for u16 {
     return out
 
 
+def d3_generic(original):
+    """Generic D3: an enum outside NUM_ENUMS that derives num_enum's IntoPrimitive / TryFromPrimitive gets stand-in
+    conversion impls whose (assumed) contract is num_enum's documented semantics over the discriminants DECLARED IN THE
+    SOURCE (explicit `= n`, otherwise previous + 1).  Enums with non-literal discriminants are left alone (the image is
+    then rejected and the run is inconclusive)."""
+    text = strip_comments(original)
+    out = ''
+    for m in re.finditer(r'((?:#\[[^\]]*\]\s*)+)pub enum (\w+)\s*\{([^}]*)\}', text):
+        attrs, en, body = m.group(1), m.group(2), m.group(3)
+        if en in NUM_ENUMS:
+            continue
+        dm = re.search(r'#\[derive\(([^)]*)\)\]', attrs)
+        if not dm:
+            continue
+        derives = [x.strip().split('::')[-1] for x in dm.group(1).split(',')]
+        into, tryfrom = 'IntoPrimitive' in derives, 'TryFromPrimitive' in derives
+        if not (into or tryfrom):
+            continue
+        rm = re.search(r'#\[repr\((u8|u16|u32|u64)\)\]', attrs)
+        if not rm:
+            continue
+        ty = rm.group(1)
+        variants = []
+        nxt = 0
+        ok = True
+        for v in [x.strip() for x in body.split(',') if x.strip()]:
+            v = re.sub(r'#\[[^\]]*\]\s*', '', v)
+            vm = re.match(r'^(\w+)(?:\s*=\s*(0x[0-9a-fA-F_]+|[0-9_]+)(?:u8|u16|u32|u64)?)?$', v)
+            if not vm:
+                ok = False
+                break
+            if vm.group(2):
+                nxt = int(vm.group(2).replace('_', ''), 0)
+            variants.append((vm.group(1), nxt))
+            nxt += 1
+        if not ok or not variants:
+            continue
+        count('D3g')
+        arms = ''.join('            %s::%s => %d,\n' % (en, v, d) for v, d in variants)
+        out += '\npub open spec fn vf_disc_%s(e: %s) -> %s {\n    match e {\n%s    }\n}\n' % (en, en, ty, arms)
+        if into:
+            out += '''impl From<%(en)s> for %(ty)s {
+    #[verifier::external_body]
+    fn from(e: %(en)s) -> (r: %(ty)s)
+        ensures r == vf_disc_%(en)s(e),
+    { unimplemented!() }
+}
+impl vstd::std_specs::convert::FromSpecImpl<%(en)s> for %(ty)s {
+    open spec fn obeys_from_spec() -> bool { true }
+    open spec fn from_spec(e: %(en)s) -> %(ty)s { vf_disc_%(en)s(e) }
+}
+''' % {'en': en, 'ty': ty}
+        if tryfrom:
+            member = ' || '.join('x == %d' % d for _, d in variants)
+            out += '''pub struct VfPrimErr%(en)s {}
+impl TryFrom<%(ty)s> for %(en)s {
+    type Error = VfPrimErr%(en)s;
+    #[verifier::external_body]
+    fn try_from(x: %(ty)s) -> (r: Result<Self, VfPrimErr%(en)s>)
+        ensures
+            r is Ok <==> (%(member)s),
+            r is Ok ==> vf_disc_%(en)s(r->Ok_0) == x,
+    { unimplemented!() }
+}
+impl crate::vf_prelude::VfTryInto<%(en)s> for %(ty)s {
+    type VfErr = VfPrimErr%(en)s;
+    #[verifier::external_body]
+    fn vf_try_into(&self) -> (r: Result<%(en)s, VfPrimErr%(en)s>)
+        ensures
+            r is Ok <==> ({ let x = *self; %(member)s }),
+            r is Ok ==> vf_disc_%(en)s(r->Ok_0) == *self,
+    { unimplemented!() }
+}
+''' % {'en': en, 'ty': ty, 'member': member}
+    return out
+
+
 def d2_enum_dispatch(text):
     m = re.search(r'pub enum AVP \{(.*?)\n\}', text, flags=re.S)
     if not m:
@@ -618,6 +709,19 @@ class Gen:
                 if any(kw != 'for' for _, kw in bare):
                     ind = re.match(r'[ \t]*', text[f.line_start:]).group(0)
                     edits.append((f.line_start, f.line_start, '%s#[verifier::exec_allows_no_decreases_clause]%s\n' % (ind, TAG)))
+        # closures: the result of a closure without a spliced contract is opaque to the proof.  The closures of the tree the
+        # contracts were written for are in the inventory vf/known_closures.json; a closure that is not there (and that no
+        # `@closure` entry selects) makes every failure in this function undecided (witness-decided)
+        if f.has_body and not (c and c.external_body) and f.key not in self.skip_body:
+            cls0 = rs.find_closures(b, f.body_open + 1, f.body_close)
+            texts = [re.sub(r'\s+', ' ', text[cl0['start']:cl0['body'][1]]).strip() for cl0 in cls0]
+            self.closure_inventory[f.key] = texts
+            known_cl = getattr(self, 'known_closures', None)
+            if known_cl is not None:
+                sel = [k[1:] for k in (c.closures if c else {}) if isinstance(k, str)]
+                fresh = [t for t in texts if t not in known_cl.get(f.key, []) and not any(x in t for x in sel)]
+                if fresh:
+                    self.lose(f, 'closure(s) that are new in this tree (result opaque to the proof): %s' % '; '.join(x[:60] for x in fresh[:3]))
         if f.has_body and getattr(self, 'new_fn_keys', None) and f.key not in self.new_fn_keys:
             body_b = b[f.body_open:f.body_close]
             called = []
@@ -628,7 +732,12 @@ class Gen:
                 # some other receiver (`reader.len()`) is NOT taken for a call of a new `len`
                 pat = r'(\bself\s*\.\s*%s\s*\(|\bSelf::%s\s*\(|\b%s::%s\s*\(|(?<![\w.])%s\s*\()' % (
                     re.escape(n), re.escape(n), re.escape(owner.strip('<>').split(' ')[0]) or 'Self', re.escape(n), re.escape(n))
-                if re.search(pat, body_b):
+                hit = re.search(pat, body_b)
+                if not hit and n not in getattr(self, 'known_fn_names', ()) and n not in STD_METHOD_NAMES:
+                    # a method call on another receiver (`flags.header_length()`): taken for a call of the new function
+                    # only if no function of the inventory and no common std method bears that name
+                    hit = re.search(r'\.\s*%s\s*(::<[^>]*>)?\s*\(' % re.escape(n), body_b)
+                if hit:
                     called.append(n)
                     self.new_fn_callers.setdefault(nk, []).append(f.key)
             if called:
@@ -828,7 +937,7 @@ class Gen:
         rel = os.path.relpath(path, self.src_root)
         original = open(path).read()
         text = apply_rules(original, rel)
-        extra = d3_standins(text) + d2_enum_dispatch(text)
+        extra = d3_standins(text) + d3_generic(original) + d2_enum_dispatch(text)
         fns, blocks = rs.scan_items(text, modpath)
         extra += self.from_companions(text, blocks, modpath)
         b, _ = rs.blank(text)
@@ -970,13 +1079,17 @@ class Gen:
                 if os.path.exists(fp):
                     walk(fp, (modpath + '::' if modpath else '') + name)
         walk(os.path.join(self.src_root, 'lib.rs'), '')
-        self.new_fn_keys = sorted(k for k in found if k not in known)
+        self.known_fn_names = {k.split('::')[-1] for k in known if k}
+        self.new_fn_keys = sorted(k for k in found if k not in known or k in getattr(self, 'extra_new', ()))
         self.new_fn_names = sorted({k.split('::')[-1] for k in self.new_fn_keys})
         self.new_fn_callers = {k: [] for k in self.new_fn_keys}
         RULES_APPLIED.clear()
 
     def generate(self, prelude_text, spec_text):
         self.labels = []
+        self.closure_inventory = {}
+        kc = os.path.join(HERE, 'known_closures.json')
+        self.known_closures = json.load(open(kc)) if os.path.exists(kc) else None
         self.new_fn_names = []
         self.new_fn_keys = []
         self.new_fn_callers = {}
@@ -1070,7 +1183,7 @@ def read_contract_sources(vf_dir):
     return srcs
 
 
-def build_image(repo_src='/repo/src', vf_dir=HERE, canary=False, extra_sidecars=None, skip_body=(), force_external=(), drop_statics=()):
+def build_image(repo_src='/repo/src', vf_dir=HERE, canary=False, extra_sidecars=None, skip_body=(), force_external=(), drop_statics=(), drop_contract=()):
     RULES_APPLIED.clear()
     DROP_STATICS.clear()
     DROP_STATICS.update(drop_statics)
@@ -1080,7 +1193,16 @@ def build_image(repo_src='/repo/src', vf_dir=HERE, canary=False, extra_sidecars=
     if extra_sidecars:
         srcs += extra_sidecars
     contracts, items, impl_items = load_sidecars(srcs)
+    # a contract the front end rejects against the function's CHANGED SIGNATURE (by-value instead of by-reference, ...)
+    # is dropped: the function is then treated like one that is new in the tree (callers degrade, failures inside it
+    # are witness-decided) and the properties its clauses were primary for are inconclusive
+    dropped = {}
+    for k in drop_contract:
+        c0 = contracts.pop(k, None)
+        if c0 is not None:
+            dropped[k] = sorted({p for lab, _ in c0.requires + c0.ensures if lab for p in lab['props']} | set((c0.safety or {}).get('props', [])))
     g = Gen(repo_src, contracts, items, impl_items, canary=canary)
+    g.extra_new = set(dropped)
     g.skip_body = set(skip_body)
     g.force_external = set(force_external)
     prelude = open(os.path.join(vf_dir, 'prelude.rs')).read()
@@ -1093,9 +1215,13 @@ def build_image(repo_src='/repo/src', vf_dir=HERE, canary=False, extra_sidecars=
     maps['lost_anchors'] = g.lost
     maps['forced_external'] = g.forced
     maps['new_functions'] = getattr(g, 'new_fn_callers', {})
+    maps['closure_inventory'] = getattr(g, 'closure_inventory', {})
     maps['missing_functions'] = {k: sorted({p for lab, _ in contracts[k].requires + contracts[k].ensures if lab for p in lab['props']})
                                  for k in getattr(g, 'missing', [])}
     maps['dropped_statics'] = sorted(DROP_STATICS)
+    maps['dropped_contracts'] = dropped
+    for k, ps in dropped.items():
+        maps['missing_functions'][k] = ps
     maps['contracts'] = {k: {'src': c.src, 'external_body': c.external_body,
                              'n_requires': len(c.requires), 'n_ensures': len(c.ensures),
                              'safety': c.safety} for k, c in contracts.items()}
@@ -1108,7 +1234,17 @@ if __name__ == '__main__':
     ap.add_argument('--src', default='/repo/src')
     ap.add_argument('--out', required=True)
     ap.add_argument('--canary', action='store_true')
+    ap.add_argument('--write-inventory', action='store_true', help='(re)write vf/known_fns.txt and vf/known_closures.json from --src')
     a = ap.parse_args()
+    if a.write_inventory:
+        for fn in ('known_closures.json',):
+            if os.path.exists(os.path.join(HERE, fn)):
+                os.remove(os.path.join(HERE, fn))
+        image, maps = build_image(a.src)
+        open(os.path.join(HERE, 'known_fns.txt'), 'w').write('\n'.join(sorted(maps['fn_index'])) + '\n')
+        json.dump({k: v for k, v in sorted(maps['closure_inventory'].items()) if v}, open(os.path.join(HERE, 'known_closures.json'), 'w'), indent=1)
+        print('inventory: %d functions, %d closures' % (len(maps['fn_index']), sum(len(v) for v in maps['closure_inventory'].values())))
+        sys.exit(0)
     try:
         image, maps = build_image(a.src, canary=a.canary)
     except (LostAnchor, rs.ScanError) as e:
